@@ -377,6 +377,7 @@ func (fc *followerController) Replicate(stream proto.OxiaLogReplication_Replicat
 
 	closeStreamWg := concurrent.NewWaitGroup(1)
 	fc.closeStreamWg = closeStreamWg
+	term := fc.term
 	fc.Unlock()
 
 	go process.DoWithLabels(
@@ -394,7 +395,7 @@ func (fc *followerController) Replicate(stream proto.OxiaLogReplication_Replicat
 			"oxia":  "add-entries-sync",
 			"shard": fmt.Sprintf("%d", fc.shardId),
 		},
-		func() { fc.handleReplicateSync(stream) },
+		func() { fc.handleReplicateSync(stream, term) },
 	)
 
 	return closeStreamWg.Wait(fc.ctx)
@@ -473,7 +474,7 @@ func (fc *followerController) append(req *proto.Append, stream proto.OxiaLogRepl
 	return nil
 }
 
-func (fc *followerController) handleReplicateSync(stream proto.OxiaLogReplication_ReplicateServer) {
+func (fc *followerController) handleReplicateSync(stream proto.OxiaLogReplication_ReplicateServer, term int64) {
 	// Keep track of what this routine has acked, instead of looking at the WAL synced offset
 	// right before syncing: a duplicated append might have synced the WAL in the meantime
 	oldHeadOffset := fc.wal.LastOffset()
@@ -494,12 +495,21 @@ func (fc *followerController) handleReplicateSync(stream proto.OxiaLogReplicatio
 
 		// Ack all the entries that were synced in the last round
 		newHeadOffset := fc.wal.LastOffset()
+		fc.Lock()
+		if fc.term != term {
+			// The node was fenced for a new term in the meantime: nothing must be
+			// acknowledged on behalf of the older term anymore
+			fc.Unlock()
+			return
+		}
 		for offset := oldHeadOffset + 1; offset <= newHeadOffset; offset++ {
 			if err := stream.Send(&proto.Ack{Offset: offset}); err != nil {
-				fc.closeStream(err)
+				fc.closeStreamNoMutex(err)
+				fc.Unlock()
 				return
 			}
 		}
+		fc.Unlock()
 		oldHeadOffset = newHeadOffset
 
 		fc.applyEntriesCond.Signal()
